@@ -1546,7 +1546,7 @@ class Interp:
         if c is None:
             # a callee known to this caller only through a declared summary (views=)
             f0 = fr
-            while f0 is not None and f0.contract is None:
+            while f0 is not None and (f0.contract is None or getattr(f0.contract, 'inline', False)):
                 f0 = f0.parent
             views = getattr(f0.contract, 'views', None) if f0 is not None else None
             if views and key in views:
@@ -1619,13 +1619,16 @@ class Interp:
         # weaker postconditions, and preconditions the caller cannot establish are replaced by an explicit assumption that is
         # listed in the evidence (A-VIEW).  The summary's ensures must follow from the callee's contract (reviewed by hand).
         f0 = fr
-        while f0 is not None and f0.contract is None:
+        while f0 is not None and (f0.contract is None or getattr(f0.contract, 'inline', False)):
             f0 = f0.parent
         views = getattr(f0.contract, 'views', None) if f0 is not None else None
         if views and c.key in views:
             v = views[c.key]
             self.assumed.add(f'A-VIEW: {short_key(f0.contract.key)} uses a summary of {short_key(c.key)}: {v.trusted}')
             c = v
+            # a summary is written for ONE caller: its conditions may mention that caller's variables
+            cenv = self.spec_env(fr)
+            env = {**{k: x for k, x in cenv.items() if k not in env}, **env}
         callee = short_key(c.key)
         if self.mode == 'quant':
             # inside a comprehension element: only calls whose result is a specification expression
